@@ -764,3 +764,17 @@ Theorem C08_source_seg_header_step : forall cols : list string,
   Gen.FnFormatsSegHeader.fn_seg_header_step cols 5 = (["sample_id"; "chromosome"; "start"; "end"; "probes"; "log2"]%string, true) /\
   Gen.FnFormatsSegHeader.fn_seg_header_step cols 4 = (["sample_id"; "chromosome"; "start"; "end"; "log2"]%string, true).
 Proof. exact Proofs.FnFormatsSegHeader.source_seg_header_step. Qed.
+
+(* ---- source tie: gff.read_gff's keep_type filter ("if keep_type: ok_type = dframe['type'] == keep_type; dframe =
+   dframe[ok_type]") read per row, translated from the Python source on every run (Gen/FnFormatsGffKeep.v fn_gff_keep): it is
+   the model's gff_keep, the filter of read_gff_full *)
+From CNV Require Gen.FnFormatsGffKeep Proofs.FnFormatsGffKeep.
+
+Theorem C08_source_gff_keep : forall (keep_type : option string) (r : row),
+  Gen.FnFormatsGffKeep.fn_gff_keep (Proofs.FnFormatsGffKeep.keep_text keep_type) (gff_type r) = gff_keep keep_type r.
+Proof. exact Proofs.FnFormatsGffKeep.source_gff_keep. Qed.
+
+Theorem C08_source_gff_filter : forall (keep_type : option string) (t : list row),
+  filter (gff_keep keep_type) t
+  = filter (fun r => Gen.FnFormatsGffKeep.fn_gff_keep (Proofs.FnFormatsGffKeep.keep_text keep_type) (gff_type r)) t.
+Proof. exact Proofs.FnFormatsGffKeep.source_gff_filter. Qed.
